@@ -100,6 +100,14 @@ def small_scope_trees(ctx):
         fact = ["or", ["and", ["and", ["m", x], ["m", z]], ["m", u]], ["and", ["and", ["m", y], ["m", z]], ["m", u]]]
         yield ["exclude", fact, nx]
         yield ["only", fact, [nz]]
+        # depth 3: Or(And(z, Or(x, y)), u) - the eliminated variable only inside the inner union
+        deep = ["or", ["or", ["and", ["m", x], ["m", z]], ["and", ["m", y], ["m", z]]], ["m", u]]
+        yield ["exclude", deep, nx]
+        yield ["only", deep, [nz, u.split()[0]]]
+        yield ["noextras", deep]
+        deep2 = ["and", ["and", ["or", ["m", x], ["m", z]], ["or", ["m", y], ["m", z]]], ["m", u]]
+        yield ["exclude", deep2, nx]
+        yield ["only", deep2, [nz]]
 
 
 def run_trees(ctx, run_tree, *, n_random, max_atoms, unary_p=0.3, small_frac=1.0, cfg=None, seconds=None):
